@@ -4,7 +4,7 @@
 Require Extraction.
 Require Import ExtrOcamlBasic.
 From Coq Require Import ZArith List Bool.
-From V Require Import tzfile.TzModel tzfile.TzSpec tzfile.TzData.
+From V Require Import tzfile.TzModel tzfile.TzSpec tzfile.TzData tzfile.TzGenericModel.
 Import ListNotations.
 Open Scope Z_scope.
 
@@ -43,10 +43,15 @@ Definition obs_wall (d : tzdata) (w : Z) (f : bool) : list Z :=
 Definition spec_utc (z : zone) (u : Z) : list Z := [off z u; local z u; b2z (fold_spec z u)].
 
 (* entry 4: spec per w: n, preimages..., utc_of fold0, utc_of fold1, gap width, resolve_spec, isolated *)
+(* utc_of_spec z w f is min_list / max_list of preimages z w by definition; gap width, resolve_spec
+   and isolated are only evaluated for imaginary w (resolve_spec z w = w otherwise) *)
 Definition spec_wall (z : zone) (w : Z) : list Z :=
   let p := preimages z w in
-  (len p :: p) ++ enc_oz (utc_of_spec z w false) ++ enc_oz (utc_of_spec z w true) ++
-  enc_oz (gap_width z w) ++ [resolve_spec z w; b2z (isolated z w)].
+  (len p :: p) ++ enc_oz (min_list p) ++ enc_oz (max_list p) ++
+  match p with
+  | [] => enc_oz (gap_width z w) ++ [resolve_spec z w; b2z (isolated z w)]
+  | _ :: _ => [0; 0; w; 0]
+  end.
 
 (* entry 5: what the raw data says at u: in_range, found, gmtoff, isdst, abbr *)
 Definition spec_data (r : raw) (u : Z) : list Z :=
@@ -101,7 +106,36 @@ Definition info (bytes : list Z) : list Z :=
 Definition with_zone (bytes : list Z) (f : tzdata -> list Z) : list Z :=
   match read_tzfile bytes with Ok d => 0 :: f d | Err e => [e] end.
 
-Definition dispatch (n : Z) (args : list Z) : list Z :=
+(* entry 9: the generic _tzinfo.fromutc with the zone's utcoffset/dst given as a finite table
+   [(x, fold, utcoffset, dst)]; when the model needs a value that is not in the table it answers
+   [1; x; fold] and the harness asks the real zone and calls again: [u; x f uo dst; ...] *)
+Fixpoint quads (l : list Z) : list (Z * Z * Z * Z) :=
+  match l with a :: b :: c :: e :: r => (a, b, c, e) :: quads r | _ => [] end.
+Fixpoint tbl_find (t : list (Z * Z * Z * Z)) (x : Z) (f : bool) : option (Z * Z) :=
+  match t with
+  | [] => None
+  | (x', f', uo, ds) :: r => if (x' =? x) && Bool.eqb (negb (f' =? 0)) f then Some (uo, ds) else tbl_find r x f
+  end.
+Definition generic_entry (args : list Z) : list Z :=
+  match args with
+  | [] => [-1]
+  | u :: rest =>
+    let t := quads rest in
+    let UO := fun x f => match tbl_find t x f with Some (a, _) => a | None => 0 end in
+    let DS := fun x f => match tbl_find t x f with Some (_, b) => b | None => 0 end in
+    let missing := fun x f => match tbl_find t x f with Some _ => false | None => true end in
+    if missing u false then [1; u; 0] else
+    let s := u + (UO u false - DS u false) in
+    if missing s true then [1; s; 1] else
+    let w := g_fromutc_wall UO DS u in
+    if missing w false then [1; w; 0] else
+    if missing w true then [1; w; 1] else
+    let (w', f) := g_fromutc UO DS u in [0; w'; b2z f]
+  end.
+
+(* entries 0-5 and 8 take [nbytes; bytes...; queries...]; split_bytes must not be applied to the
+   arguments of the other entries (their first number is not a length) *)
+Definition zone_entry (n : Z) (args : list Z) : list Z :=
   let (bytes, q) := split_bytes args in
   match n with
   | 0 => info bytes
@@ -110,13 +144,6 @@ Definition dispatch (n : Z) (args : list Z) : list Z :=
   | 3 => with_zone bytes (fun d => flat_map (spec_utc (zone_of d)) q)
   | 4 => with_zone bytes (fun d => flat_map (spec_wall (zone_of d)) q)
   | 5 => match parse_tzif bytes with Ok r => 0 :: flat_map (spec_data r) q | Err e => [e] end
-  | 6 => let r := decode_raw args in b2z (wf_raw r) :: render_tzif r
-  | 7 => match args with
-         | [o; u] => let (w, f) := fixed_fromutc o u in
-                     [w; b2z f; fixed_utcoffset o w f; w - fixed_utcoffset o w f;
-                      b2z (fixed_is_ambiguous o w); b2z (fixed_exists o w f)]
-         | _ => [-1]
-         end
   | 8 => (* zone equality of two byte strings: [n1; bytes1; n2; bytes2] *)
          let (b2, _) := split_bytes q in
          match read_tzfile bytes, read_tzfile b2 with
@@ -125,5 +152,17 @@ Definition dispatch (n : Z) (args : list Z) : list Z :=
          end
   | _ => [-1]
   end.
+
+Definition dispatch (n : Z) (args : list Z) : list Z :=
+  if (n =? 6) then (let r := decode_raw args in b2z (wf_raw r) :: render_tzif r)
+  else if (n =? 7) then
+    match args with
+    | [o; u] => let (w, f) := fixed_fromutc o u in
+                [w; b2z f; fixed_utcoffset o w f; w - fixed_utcoffset o w f;
+                 b2z (fixed_is_ambiguous o w); b2z (fixed_exists o w f)]
+    | _ => [-1]
+    end
+  else if (n =? 9) then generic_entry args
+  else zone_entry n args.
 
 Extraction "model.ml" dispatch.
